@@ -6,6 +6,8 @@ harness/props/C16.py).  Helper lemmas: Proofs/BinImage.lean.
 -/
 import SpsdkVerif.Model.BinImage
 import SpsdkVerif.Proofs.BinImage
+import SpsdkVerif.Model.HexFmt
+import SpsdkVerif.Proofs.HexFmt
 
 namespace SpsdkVerif.C16
 open SpsdkVerif SpsdkVerif.BinImg SpsdkVerif.Misc
@@ -186,5 +188,164 @@ example : AlignWF exTree := by
 example : (Img.mk 8 0 1 none none [.mk 0 0 1 (some [1, 2, 3, 4]) none [], .mk 0 3 1 (some [5]) none []]).validate
     = .error .overlap := by decide
 example : (Img.mk 4 0 1 none none [.mk 0 2 1 (some [1, 2, 3]) none []]).validate = .error .sticksOut := by decide
+
+end SpsdkVerif.C16
+
+/-!
+# File formats: Intel-HEX and S-record text (Model/HexFmt.lean, helper lemmas Proofs/HexFmt.lean)
+
+"Saving an image as HEX or S19 and loading it again gives the same bytes at the same addresses", for the
+writer / reader pair SPSDK uses (`bincopy.BinFile.as_ihex` / `as_srec`, `add_ihex` / `add_srec` behind the
+format sniffing of `BinFile.add`).  The model is tied to the real code by the `hexfmt_model` stream
+(emitted text byte for byte, decoded segments, accept / refuse of malformed text).
+-/
+namespace SpsdkVerif.C16
+open SpsdkVerif.HexFmt
+
+/-- what `save_binary_image` hands to bincopy for an image whose data-carrying nodes do not overlap: segments
+    in ascending order, non-overlapping (touching allowed), non-empty, inside the 32-bit address space -/
+def SegsOK (segs : List Seg) : Prop :=
+  (∀ s ∈ segs, s.data ≠ [] ∧ s.addr + s.data.length ≤ 2 ^ 32) ∧
+  segs.Pairwise (fun a b => a.addr + a.data.length ≤ b.addr)
+
+theorem segsOK_from (segs : List Seg) (h : SegsOK segs) : SegsFrom 0 segs :=
+  segsFrom_of_pairwise segs 0 (fun s hs => ⟨Nat.zero_le _, (h.1 s hs).1, (h.1 s hs).2⟩) h.2
+
+/-! ## single records -/
+
+/-- an emitted Intel-HEX record parses back to its type, address and data (the checksum verifies) -/
+theorem ihex_record_roundtrip (type addr : Nat) (data : HexFmt.Bytes) (ht : type < 256) (ha : addr < 65536)
+    (hd : data.length < 256) : unpackIhex (packIhex type addr data) = .ok (type, addr, data) :=
+  unpackIhex_packIhex type addr data ht ha hd
+
+/-- an emitted S-record of any type (address width 2, 3 or 4 bytes) parses back to its type, address and data -/
+theorem srec_record_roundtrip (t : UInt8) (w addr : Nat) (data : HexFmt.Bytes) (hw : srecWidth t = some w)
+    (ha : addr < 256 ^ w) (hd : data.length + w + 1 < 256) : unpackSrec (packSrec t w addr data) = .ok (t, addr, data) :=
+  unpackSrec_packSrec t w addr data hw ha hd
+
+/-- changing any single byte of an emitted Intel-HEX record (length, address, type, data or checksum byte; in
+    particular any single hex digit) makes the reader refuse the record -/
+theorem ihex_checksum_detects_single_byte (type addr : Nat) (data pre post : HexFmt.Bytes) (x y : UInt8) (hxy : x ≠ y)
+    (hrec : packIhex type addr data = 58 :: hexBytes (pre ++ x :: post)) (r : Nat × Nat × HexFmt.Bytes) :
+    unpackIhex (58 :: hexBytes (pre ++ y :: post)) ≠ .ok r := by
+  intro h
+  have h1 := unpackIhex_ok_sum _ r h
+  have h0 : sumBytes (pre ++ x :: post) % 256 = 0 := by
+    simp only [packIhex, List.cons.injEq, true_and] at hrec
+    rw [← hexBytes_inj _ _ hrec]
+    exact sum_of_crcIhex _ (by rw [List.getLast?_concat, List.dropLast_concat])
+  exact hxy (sum_single_byte pre post x y (by rw [h0, h1]))
+
+/-- … and so for an emitted S-record -/
+theorem srec_checksum_detects_single_byte (t : UInt8) (w addr : Nat) (data pre post : HexFmt.Bytes) (x y : UInt8) (hxy : x ≠ y)
+    (hrec : packSrec t w addr data = 83 :: t :: hexBytes (pre ++ x :: post)) (r : UInt8 × Nat × HexFmt.Bytes) :
+    unpackSrec (83 :: t :: hexBytes (pre ++ y :: post)) ≠ .ok r := by
+  intro h
+  have h1 := unpackSrec_ok_sum t _ r h
+  have h0 : sumBytes (pre ++ x :: post) % 256 = 255 := by
+    simp only [packSrec, List.cons.injEq, true_and] at hrec
+    rw [← hexBytes_inj _ _ hrec]
+    exact sum_of_crcSrec _ (by rw [List.getLast?_concat, List.dropLast_concat])
+  exact hxy (sum_single_byte pre post x y (by rw [h0, h1]))
+
+/-! ## whole files -/
+
+/-- merging touching segments (what bincopy does on `add_binary`, and again when reading) changes no byte at
+    any address -/
+theorem normalize_same_bytes (segs : List Seg) (a : Nat) : memAt (normalize segs) a = memAt segs a :=
+  memAt_normalize segs a
+
+/-- the reader's general `Segments.add` (fast path, linear insert, merge loop), on an ascending list whose
+    current segment is the last one and for data at or behind its end, is "merge when touching, else append" -/
+theorem reader_add_ascending (l : List Seg) (s : Seg) (hb : ∀ x ∈ l, x.max ≤ lastMax l) (hs : lastMax l ≤ s.addr) :
+    SegList.add ⟨l, l.length - 1⟩ s = .ok ⟨addSorted l s, (addSorted l s).length - 1⟩ :=
+  add_sorted l s hb hs
+
+/-- Intel-HEX: for every ascending, non-overlapping list of non-empty segments in the 32-bit address space
+    (any number, any lengths, touching or crossing 64 KiB boundaries) and every optional 32-bit execution start
+    address, the writer succeeds and the reader gives back the same segments (touching ones merged) and the
+    same start address -/
+theorem ihex_roundtrip (exec : Option Nat) (segs : List Seg) (h : SegsOK segs) (he : ∀ e, exec = some e → e < 2 ^ 32) :
+    ∃ text, ihexEncode exec segs = .ok text ∧ ihexDecode text = .ok ⟨normalize segs, exec⟩ := by
+  obtain ⟨text, h1, h2, _⟩ := ihex_roundtrip_from exec segs (segsOK_from segs h) he
+  exact ⟨text, h1, h2⟩
+
+/-- … hence the same bytes at the same addresses -/
+theorem ihex_roundtrip_bytes (exec : Option Nat) (segs : List Seg) (h : SegsOK segs) (he : ∀ e, exec = some e → e < 2 ^ 32) :
+    ∃ text img, ihexEncode exec segs = .ok text ∧ ihexDecode text = .ok img ∧ img.exec = exec ∧
+      ∀ a, memAt img.segs a = memAt segs a := by
+  obtain ⟨text, h1, h2⟩ := ihex_roundtrip exec segs h he
+  exact ⟨text, _, h1, h2, rfl, fun a => memAt_normalize segs a⟩
+
+/-- S-record: the same, as long as bincopy can count the records (it refuses more than 0xffffff of them) -/
+theorem srec_roundtrip (exec : Option Nat) (segs : List Seg) (h : SegsOK segs) (he : ∀ e, exec = some e → e < 2 ^ 32)
+    (hn : ((normalize segs).flatMap Seg.chunks).length ≤ 0xffffff) :
+    ∃ text, srecEncode exec segs = .ok text ∧ srecDecode text = .ok ⟨normalize segs, exec⟩ := by
+  obtain ⟨text, _, h1, h2, _⟩ := srec_roundtrip_from exec segs (segsOK_from segs h) he hn
+  exact ⟨text, h1, h2⟩
+
+theorem srec_roundtrip_bytes (exec : Option Nat) (segs : List Seg) (h : SegsOK segs) (he : ∀ e, exec = some e → e < 2 ^ 32)
+    (hn : ((normalize segs).flatMap Seg.chunks).length ≤ 0xffffff) :
+    ∃ text img, srecEncode exec segs = .ok text ∧ srecDecode text = .ok img ∧ img.exec = exec ∧
+      ∀ a, memAt img.segs a = memAt segs a := by
+  obtain ⟨text, h1, h2⟩ := srec_roundtrip exec segs h he hn
+  exact ⟨text, _, h1, h2, rfl, fun a => memAt_normalize segs a⟩
+
+/-- the record-count hypothesis is exactly bincopy's limit: beyond it `as_srec` raises -/
+theorem srec_too_many_records (exec : Option Nat) (segs : List Seg)
+    (hn : ¬ ((normalize segs).flatMap Seg.chunks).length ≤ 0xffffff) : srecEncode exec segs = .error .fmt := by
+  unfold srecEncode srecFooter
+  have h1 : ¬ ((normalize segs).flatMap Seg.chunks).length ≤ 0xffff := by omega
+  simp only [h1, hn, if_false]
+
+/-- through `load_binary_image`'s path for text files (format sniffing on the first line: S-record first, then
+    Intel-HEX; refusal of a file without segments): a non-empty image written as HEX is recognised as HEX and
+    loaded back -/
+theorem ihex_load_roundtrip (exec : Option Nat) (segs : List Seg) (h : SegsOK segs) (hne : segs ≠ [])
+    (he : ∀ e, exec = some e → e < 2 ^ 32) :
+    ∃ text, ihexEncode exec segs = .ok text ∧ loadText text = .ok ⟨normalize segs, exec⟩ :=
+  load_ihex_roundtrip_from exec segs (segsOK_from segs h) hne he
+
+/-- … and one written as S19 is recognised as S-record and loaded back -/
+theorem srec_load_roundtrip (exec : Option Nat) (segs : List Seg) (h : SegsOK segs) (hne : segs ≠ [])
+    (he : ∀ e, exec = some e → e < 2 ^ 32) (hn : ((normalize segs).flatMap Seg.chunks).length ≤ 0xffffff) :
+    ∃ text, srecEncode exec segs = .ok text ∧ loadText text = .ok ⟨normalize segs, exec⟩ :=
+  load_srec_roundtrip_from exec segs (segsOK_from segs h) hne he hn
+
+/-! ## non-vacuity and sanity (texts as bincopy 20.1.1 writes them) -/
+
+/-- two touching segments whose union crosses a 64 KiB boundary, one at the very top of the address space -/
+def exSegs : List Seg := [⟨0xFFFF, [0xAA, 0xBB]⟩, ⟨0x10001, [0xCC]⟩, ⟨0xFFFFFFFE, [1, 2]⟩]
+
+example : SegsOK exSegs := by
+  refine ⟨by decide, ?_⟩
+  simp [exSegs, List.pairwise_cons]
+
+example : normalize exSegs = [⟨0xFFFF, [0xAA, 0xBB, 0xCC]⟩, ⟨0xFFFFFFFE, [1, 2]⟩] := by decide
+
+-- ":03FFFF00AABBCCCE\n:02000004FFFFFC\n:02FFFE000102FE\n:0400000520000401D2\n:00000001FF\n"
+def exIhex : HexFmt.Bytes :=
+  [58, 48, 51, 70, 70, 70, 70, 48, 48, 65, 65, 66, 66, 67, 67, 67, 69, 10, 58, 48, 50, 48, 48, 48, 48, 48, 52, 70, 70, 70, 70,
+   70, 67, 10, 58, 48, 50, 70, 70, 70, 69, 48, 48, 48, 49, 48, 50, 70, 69, 10, 58, 48, 52, 48, 48, 48, 48, 48, 53, 50, 48, 48,
+   48, 48, 52, 48, 49, 68, 50, 10, 58, 48, 48, 48, 48, 48, 48, 48, 49, 70, 70, 10]
+
+-- "S3080000FFFFAABBCCC8\nS307FFFFFFFE0102FA\nS5030002FA\nS70520000401D5\n"
+def exSrec : HexFmt.Bytes :=
+  [83, 51, 48, 56, 48, 48, 48, 48, 70, 70, 70, 70, 65, 65, 66, 66, 67, 67, 67, 56, 10, 83, 51, 48, 55, 70, 70, 70, 70, 70, 70,
+   70, 69, 48, 49, 48, 50, 70, 65, 10, 83, 53, 48, 51, 48, 48, 48, 50, 70, 65, 10, 83, 55, 48, 53, 50, 48, 48, 48, 48, 52, 48,
+   49, 68, 53, 10]
+
+example : ihexEncode (some 0x20000401) exSegs = .ok exIhex := by decide
+example : srecEncode (some 0x20000401) exSegs = .ok exSrec := by decide
+example : loadText exIhex = .ok ⟨normalize exSegs, some 0x20000401⟩ := by decide
+example : loadText exSrec = .ok ⟨normalize exSegs, some 0x20000401⟩ := by decide
+-- a flipped digit, an unknown record type, an odd number of digits, an empty file body
+example : ihexDecode [58, 48, 48, 48, 48, 48, 48, 48, 49, 70, 69, 10] = .error .fmt := by decide     -- ":00000001FE"
+example : ihexDecode [58, 48, 48, 48, 48, 48, 48, 48, 54, 70, 65, 10] = .error .fmt := by decide     -- ":00000006FA"
+example : ihexDecode [58, 48, 48, 48, 48, 48, 48, 48, 49, 70, 70, 70, 10] = .error .value := by decide -- ":00000001FFF"
+example : loadText [58, 48, 48, 48, 48, 48, 48, 48, 49, 70, 70, 10] = .error .fmt := by decide       -- only an EOF record
+-- out-of-order and overlapping data records go through the general `Segments.add`
+example : (SegList.add ⟨[⟨0, [1, 2]⟩, ⟨8, [3]⟩], 1⟩ ⟨2, [9]⟩) = .ok ⟨[⟨0, [1, 2, 9]⟩, ⟨8, [3]⟩], 0⟩ := by decide
+example : (SegList.add ⟨[⟨0, [1, 2]⟩, ⟨8, [3]⟩], 1⟩ ⟨1, [9]⟩) = .error .fmt := by decide
 
 end SpsdkVerif.C16
